@@ -834,9 +834,9 @@ def check_views(cls=None):
     # elements of every shape: with text, with blank text, with no text at all (a page / slide / sheet that only carries pictures)
     txt = lambda k: ("", "  \n", f"p{k}")[k % 3]
     mk_el = {"PdfContent": lambda imgs, tabs, k: dt.PdfPage(text=txt(k), images=imgs, tables=tabs),
-             "PptxContent": lambda imgs, tabs, k: dt.PptxSlide(slide_number=k, images=imgs, tables=tabs, base_text=txt(k), text=txt(k)),
+             "PptxContent": lambda imgs, tabs, k: dt.PptxSlide(slide_number=10 + k, images=imgs, tables=tabs, base_text=txt(k), text=txt(k)),
              "XlsxContent": lambda imgs, tabs, k: dt.XlsxSheet(name=("" if k % 3 == 0 else f"S{k}"), text=txt(k), images=imgs, data=(tabs[0] if tabs else [])),
-             "OdpContent": lambda imgs, tabs, k: dt.OdpSlide(slide_number=k, images=imgs, tables=tabs, title=txt(k).strip()),
+             "OdpContent": lambda imgs, tabs, k: dt.OdpSlide(slide_number=10 + k, images=imgs, tables=tabs, title=txt(k).strip()),
              "OdsContent": lambda imgs, tabs, k: dt.OdsSheet(name=("" if k % 3 == 0 else f"S{k}"), text=txt(k), images=imgs, data=(tabs[0] if tabs else []))}
     field = {"PdfContent": "pages", "PptxContent": "slides", "XlsxContent": "sheets", "OdpContent": "slides", "OdsContent": "sheets"}
     for c in ([cls] if cls else list(flat) + ["PptContent"]):
@@ -879,6 +879,14 @@ def check_views(cls=None):
                             "observed": f"{len(flat)} unit images vs {len(doc)} document images"}
                 if len(units) != n:
                     return {"target": f"{c}.iterate_units", "inputs": inputs, "expected": f"{n} units", "observed": f"{len(units)}"}
+                for j, u in enumerate(units):        # the unit reports the stored number of its slide / the 1-based position of its page or sheet
+                    wn = getattr(els[j], "slide_number", j + 1)
+                    try:
+                        gn = u.get_metadata().unit_number
+                    except Exception as ex_:  # noqa
+                        gn = f"raised {type(ex_).__name__}"
+                    if gn != wn:
+                        return {"target": f"{c}.iterate_units", "inputs": inputs, "expected": f"unit {j} reports unit_number {wn}", "observed": repr(gn)}
                 dtabs = [t.get_table() for t in content.iterate_tables()]
                 for u in units:
                     for t in u.get_tables():
